@@ -145,3 +145,16 @@ claim("C19", "hostile program families: every loader, dumper and converter gener
                                              "genprog/conv.py; the sanitizer is proved over the string cells of D and a printed list of hostile "
                                              "names (its per-character behaviour over all of Unicode is not enumerated).",
       ref="DESIGN.md §5, Appendix D")
+
+claim("C11", "the cache mechanism is proved transparent per function: BuiltinMediator.cached_call (hit: stored value, factory not called, nothing "
+             "written; miss: factory called once, result stored under (func, *args, *kwargs.items()); failure stores nothing), "
+             "AdornedRetort.get_loader/get_dumper likewise, and every _calculate_derived re-creates its caches as new empty dicts, so a clone "
+             "(copy + _calculate_derived) shares no cache with its origin; every cached_call site is enumerated from the AST and each key "
+             "argument is sorted by a table (an unsorted argument is undecided); key sorts whose `==` is coarser than behaviour and "
+             "replace()/extend() are exercised by bounded call histories compared with fresh retorts; converter histories via GENPROG",
+      note=NOTE + CONV_NOTE + " C11-specific: (K) 'equal keys denote indistinguishable requests' is proved only for the mechanism; for the call sites "
+                              "it rests on the sort table of props/C11.py (regular expressions over argument expressions) plus the bounded "
+                              "histories (labelled bounded, never counted as proved: pool of confusable types printed in props/C11.py, "
+                              "histories of length <= 2 quick / 3 thorough). replace()/extend() themselves (with-statement over a generator "
+                              "context manager) are outside the executor's subset: their effect is covered by the _calculate_derived contracts "
+                              "and the histories. normalize_type's process-wide lru_cache is not under contract.")
